@@ -45,9 +45,10 @@ def _utility(tier):
 def strategy(tier):
     heavy = (tier == "thorough")
     big = [simgen.scenario(p, big=True) for p in _ALL] if heavy else []
-    return st.one_of(*([simgen.scenario(p) for p in _ALL] + big + [simgen.stress(heavy)] * 4
-                       + [simgen.coincide()] * 2 + [simgen.crowd()] * 2 + [simgen.churn(), simgen.deep()]
-                       + _utility(tier)))
+    sims = simprop.trusting(st.one_of(*([simgen.scenario(p) for p in _ALL] + big + [simgen.stress(heavy)] * 4
+                                        + [simgen.coincide()] * 2 + [simgen.crowd()] * 2
+                                        + [simgen.churn(), simgen.deep()])))
+    return st.one_of(*([sims] * 30 + _utility(tier)))
 
 
 def serialize(case):
